@@ -5,6 +5,9 @@
 //   S send t2 spending t1 (CommitTransaction) L label + purpose for a foreign address       D DelAddressBook of that address (DB txn)
 //   K lock a coin persistently                U unlock it                                   I import a descriptor with its private key
 //   R RemoveTxs of every wallet tx (DB txn)   G set the avoid_reuse wallet flag             X clean close + LoadExisting
+// and, in directed histories only,
+//   P keypool refill TopUpKeyPool(5)          M a mempool tx paying the receiving address ONE AHEAD of next_index arrives through
+//   N lock the coin in memory only              AddToWalletIfInvolvingMe (MarkUnusedAddresses moves next_index past it)
 // are explored breadth-first (an operation is only applied where it is enabled; states with equal DB records and equal
 // in-memory snapshot are merged). Every history ends with a clean close; a fresh process reloads the file and must see
 // exactly what the wallet held before the close: flags, descriptors with private keys and next indices, transactions
@@ -30,8 +33,9 @@ static wk::Env* g_env;
 static wh::Config g_cfg;
 static std::string g_base_addr; // first receiving address of the base wallet (t1 pays to it)
 
-enum { OP_A, OP_T, OP_F, OP_S, OP_L, OP_D, OP_K, OP_U, OP_I, OP_R, OP_G, OP_X, N_OPS };
-static const char* OPN[] = {"A", "T", "F", "S", "L", "D", "K", "U", "I", "R", "G", "X"};
+// the first N_BFS operations form the breadth-first alphabet; P, M, N only occur in the directed histories
+enum { OP_A, OP_T, OP_F, OP_S, OP_L, OP_D, OP_K, OP_U, OP_I, OP_R, OP_G, OP_X, N_BFS, OP_P = N_BFS, OP_M, OP_N, N_OPS };
+static const char* OPN[] = {"A", "T", "F", "S", "L", "D", "K", "U", "I", "R", "G", "X", "P", "M", "N"};
 
 // ------------------------------------------------------------------------------------------------ fixed objects
 static CTxDestination ExtDest()
@@ -128,7 +132,14 @@ static bool Enabled(CWallet& w, int op)
     case OP_S: return has1 && !has2;
     case OP_D: return w.m_address_book.count(ExtDest()) > 0;
     case OP_L: return w.m_address_book.count(ExtDest()) == 0;
-    case OP_K: return !w.m_locked_coins.count(LockedCoin());
+    case OP_K: { auto it = w.m_locked_coins.find(LockedCoin()); return it == w.m_locked_coins.end() || !it->second; }
+    case OP_N: return !w.m_locked_coins.count(LockedCoin());
+    case OP_M: {
+        auto* d = dynamic_cast<DescriptorScriptPubKeyMan*>(w.GetScriptPubKeyMan(OutputType::BECH32, false));
+        if (!d) return false;
+        LOCK(d->cs_desc_man);
+        return d->m_wallet_descriptor.next_index + 1 < d->m_wallet_descriptor.range_end;
+    }
     case OP_U: return w.m_locked_coins.count(LockedCoin()) > 0;
     case OP_I: return !w.m_spk_managers.count(*uint256::FromHex(ImportDescId()));
     case OP_R: return !w.mapWallet.empty();
@@ -166,6 +177,27 @@ static std::string Apply(std::shared_ptr<CWallet>& w, int op, const std::string&
         break;
     }
     case OP_G: w->SetWalletFlag(WALLET_FLAG_AVOID_REUSE); break;
+    case OP_P: if (!w->TopUpKeyPool(5)) return "TopUpKeyPool failed"; break;
+    case OP_N: { LOCK(w->cs_wallet); if (!w->LockCoin(LockedCoin(), false)) return "LockCoin failed"; break; }
+    case OP_M: {
+        LOCK(w->cs_wallet);
+        auto* d = dynamic_cast<DescriptorScriptPubKeyMan*>(w->GetScriptPubKeyMan(OutputType::BECH32, false));
+        if (!d) return "no bech32 descriptor";
+        CMutableTransaction m;
+        {
+            LOCK(d->cs_desc_man);
+            int32_t idx = d->m_wallet_descriptor.next_index + 1; // look-ahead: not handed out yet, but inside the cached range
+            std::vector<CScript> scripts;
+            FlatSigningProvider keys;
+            if (!d->m_wallet_descriptor.descriptor->ExpandFromCache(idx, d->m_wallet_descriptor.cache, scripts, keys) || scripts.empty()) return "cannot expand the look-ahead index";
+            m.version = 2;
+            m.vin.emplace_back(COutPoint(Txid::FromUint256(uint256{0x66}), (uint32_t)idx));
+            m.vin[0].scriptWitness.stack.push_back({4, 5});
+            m.vout.emplace_back(30000000, scripts[0]);
+        }
+        if (!w->AddToWalletIfInvolvingMe(MakeTransactionRef(m), TxStateInMempool{}, false)) return "the look-ahead payment was not recognised as the wallet's";
+        break;
+    }
     case OP_X: {
         wk::Close(w);
         std::string err;
@@ -282,6 +314,7 @@ int main(int argc, char** argv)
     g_env = &env_root;
     g_cfg.id = "C43";
     g_cfg.n_ops = N_OPS;
+    g_cfg.allow = [](const wh::History& h) { return std::all_of(h.begin(), h.end(), [](int op) { return op < N_BFS; }); };
     g_cfg.op_name = [](int op) { return std::string(OPN[op]); };
     // the first receiving address of the fixed-seed wallet (computed in a child; needed by the recorder children for t1)
     {
@@ -390,16 +423,25 @@ int main(int argc, char** argv)
         S.selfchecked += B.selfchecked; S.ops_logged += B.ops_logged; S.cut_short = S.cut_short || B.cut_short; S.error = S.error || B.error;
         if (bfs) { S.distinct_states = B.distinct_states; S.completed_depth = B.completed_depth; }
     };
-    auto run_chosen = [&](const std::vector<std::string>& hs, const std::string& sub) {
+    auto run_chosen = [&](const std::vector<std::string>& hs, const std::string& sub, bool crash = true) {
         if (!g_cfg.only.empty() || S.cut_short) return;
         wh::Config c = g_cfg;
         c.max_depth = 0;
+        c.allow = [](const wh::History&) { return true; };
         for (auto& h : hs) c.extra.push_back(wh::ParseHist(g_cfg, h));
-        c.want_crash = [](const wh::Run&) { return true; };
+        c.want_crash = [crash](const wh::Run&) { return crash; };
         merge(wh::Explore(c, recorder, pool, initial, g_scratch + sub), false);
     };
     run_chosen({"L D", "T S R", "I"}, "/first");
     if (S.error) return 2;
+    // directed histories around MarkUnusedAddresses: a payment to a look-ahead address, with the default range (the top-up that
+    // follows grows the range) and after a keypool refill (the range already covers it), then a clean restart / more addresses
+    {
+        std::vector<std::string> dir{"M", "P M", "P M A", "P M X A", "A P M M"};
+        if (getenv("C43_LOCK_QUIRK")) dir = {"N K U", "N K"};
+        run_chosen(dir, "/directed", /*crash=*/big);
+        if (S.error) return 2;
+    }
     // (2) breadth-first exploration of all histories
     if (!S.cut_short) merge(wh::Explore(g_cfg, recorder, pool, initial, g_scratch), true);
     if (S.error) return 2;
@@ -485,7 +527,7 @@ int main(int argc, char** argv)
     E.set("creation_loaded_with_8_descriptors", pool.counts["creation_loaded_8_descriptors"]);
     E.set("creation_not_loadable", pool.counts["creation_not_loadable"]);
     E.exhaustive = !S.cut_short;
-    E.rule = "histories over {A T F S L D K U I R G X} (see header), breadth-first to depth " + std::to_string(g_cfg.max_depth) +
+    E.rule = "directed histories {M} {P M} {P M A} {P M X A} {A P M M} (P keypool refill to 5, M mempool payment to the receiving address one ahead of next_index through AddToWalletIfInvolvingMe) and histories over {A T F S L D K U I R G X} (see header), breadth-first to depth " + std::to_string(g_cfg.max_depth) +
              ", operations applied only where enabled, states merged on equal DB records + in-memory snapshot; per history a clean close + LoadExisting in a fresh process compared with the pre-close wallet; " +
              (big ? "for every history to depth " + std::to_string(crash_depth) + " and {T S R}" : std::string("for the histories {A} {I} {L D} {T S R}")) + " every crash state with crash point in the last operation (kill prefixes" + (big ? ", torn last writes at depth 1" : "") +
              ", power-loss cuts; deduplicated by bytes) reloaded; plus every crash state of wallet creation. evaluations = reloads judged; distinct_nontrivial = distinct (history, reloaded records + snapshot) outcomes";
